@@ -24,7 +24,7 @@ RULE = ("scenario = 1..3 clients x 1..8 messages (requests and notifications ove
         "non-trivial = a notification was dispatched to something other than notifications/initialized, or a handler fault fired, or dispatches overlapped")
 PROBES = ["notification_unregistered_method", "notification_to_request_method", "handler_raised", "handler_returned_nonsense",
           "dispatches_overlapped", "unknown_tool_or_resource", "unhashable_name", "empty_method", "id_zero_or_empty"]
-TIERS = {"quick": {"runs": 4000, "wall": 40.0}, "thorough": {"runs": 200000, "wall": 540.0}}
+TIERS = {"quick": {"runs": 25000, "wall": 45.0}, "thorough": {"runs": 2000000, "wall": 560.0}}
 ASSUMPTIONS = [
     "incoming messages are well-formed envelopes (typed classes or parse_message output); responses as input are out of the sentence",
     "malformed tool arguments (null / wrong type) may be answered with -32602 or -32603; an empty method string with -32600 or -32601",
